@@ -35,4 +35,4 @@ def run(ctx):
                           (("stable", [0, 2, 4, 6]), ("debug", [0, 6]), ("nightly", [0, 1, 3, 7]))):
         cases, meta = saferun.gen_safe_cases(ctx, facts, config, entries, lens, [(0, 0, 0, 0)], masks, seed_tag=22,
                                              cls="boundary" if thorough else "random")
-        saferun.compare_safe(ctx, config, cases, meta, "D:safe-arith")
+        saferun.compare_safe(ctx, config, cases, meta, "D:safe-arith", spec_pid="C02")
